@@ -1289,6 +1289,10 @@ func (w *World) Check(browser int, label, scheme, host, path string, hdr map[str
 	w.Sim.SetCur(task)
 	rec.Seq0, rec.T0 = w.Sim.Tick(), time.Now()
 	w.invoke(rec, mkRequest(scheme, host, path, hdr))
+	// Back from the service: take a scheduling step of our own before touching simulator state. Checks that the
+	// service (or a library) released together - waiters of one lock, of one coalesced call - come back at the same
+	// fake instant and run in parallel until here; from here on one task runs at a time again.
+	w.Sim.YieldAs(task, "check:ret")
 	w.Sim.SetCur(task)
 	rec.Seq1, rec.T1 = w.Sim.Tick(), time.Now()
 	if task != nil {
@@ -1322,6 +1326,7 @@ func (w *World) CheckRaw(label string, req *envoy.CheckRequest) *CheckRec {
 	}
 	rec.Seq0, rec.T0 = w.Sim.Tick(), time.Now()
 	w.invoke(rec, req)
+	w.Sim.YieldAs(task, "check:ret")
 	w.Sim.SetCur(task)
 	rec.Seq1, rec.T1 = w.Sim.Tick(), time.Now()
 	if task != nil {
